@@ -1614,6 +1614,8 @@ class FlowIR(object):
         application_dependencies = application_dependencies or []
         top_level_folders = top_level_folders or []
         resolved_components = {}
+        # VV: Dependencies between components after resolving the variables inside references (cycle detection)
+        dependencies = networkx.DiGraph()
         for comp in flowir_components:
             resolved = deep_copy(comp)
             stage_idx = comp.get('stage', 0)
@@ -1664,9 +1666,36 @@ class FlowIR(object):
 
             resolved_components[c_id] = resolved
 
+            for idx, reference in enumerate(comp.get('references', [])):
+                # VV: A reference may spell (part of) its producer using variables (e.g. "%(producer)s:ref").
+                # ParseDataReferenceFull() does not treat such a string as a reference to a component, therefore
+                # resolve it first, in the same way that replicate/aggregate are resolved above
+                try:
+                    reference = cls.fill_in(reference, visible_vars, label='%s.references[%d]' % (ref, idx),
+                                            ignore_errors=True, is_primitive=True)
+                    producer_stage, producer, _, _ = cls.ParseDataReferenceFull(
+                        reference, stage_idx, application_dependencies=application_dependencies,
+                        special_folders=top_level_folders)
+                except Exception:
+                    # VV: Malformed references and unknown variables are reported when validating the components
+                    continue
+                if producer_stage is not None:
+                    dependencies.add_edge('stage%d.%s' % (producer_stage, producer), ref)
+
         replicate_instructions = cls.propagate_replicate(
             list(resolved_components.values()), ignore_missing_references,
             application_dependencies=application_dependencies, top_level_folders=top_level_folders)
+
+        # VV: propagate_replicate() raises for a cycle of references which spell their producer out; it cannot see the
+        # references that contain variables
+        try:
+            cycle = networkx.find_cycle(dependencies)
+        except networkx.NetworkXNoCycle:
+            pass
+        else:
+            raise experiment.model.errors.FlowIRInconsistency(
+                "Graph contains a cycle: %s" % " -> ".join([edge[0] for edge in cycle] + [cycle[-1][1]]),
+                flowir=None)
 
         # VV: We now know which components need to be replicated and how many replicas to generate for them, as well as
         #     which components are aggregating their upstream replicas
